@@ -464,6 +464,9 @@ namespace nmtools::array::sycl
             auto shape_buffer  = this->create_buffer(output_shape);
 
             auto warp_size   = 32;
+            #if defined(NMTOOLS_VERIF) && defined(NMTOOLS_VERIF_WARP_SIZE)
+            warp_size = NMTOOLS_VERIF_WARP_SIZE(warp_size);
+            #endif
             auto thread_size = size_t(std::ceil(float(numel) / warp_size)) * warp_size;
 
             queue->submit([&](::sycl::handler& cgh){
